@@ -269,6 +269,54 @@ def check_C04(tier: str, v: Verdict):
     v.assumptions += ["TLC, CommunityModules", "rank renaming preserves equality/distinctness of labels, which is all C04 speaks about"]
 
 
+def gen_fragment_records(rng, n):
+    """C14: one or two references, each covered by 3-6 prediction fragments with arbitrary inside/outside
+    proportions (so that some merges are accepted, some rejected, in every order of single scores)."""
+    recs = []
+    for _ in range(n):
+        L = rng.randint(30, 60)
+        ref = np.zeros(L, dtype=np.int64)
+        pred = np.zeros(L, dtype=np.int64)
+        nref = rng.choice([1, 1, 2])
+        free = list(range(L))
+        nxt = 1
+        for r in range(1, nref + 1):
+            size = rng.randint(8, 18)
+            start = rng.randint(0, L - size) if r == 1 else None
+            if r == 1:
+                pos = list(range(start, start + size))
+            else:
+                cand = [i for i in free if ref[i] == 0]
+                if len(cand) < 6:
+                    break
+                st = rng.choice(cand[: max(1, len(cand) - 6)])
+                pos = [i for i in range(st, min(L, st + rng.randint(4, 10))) if ref[i] == 0]
+            for i in pos:
+                ref[i] = r
+            inside = [i for i in pos]
+            rng.shuffle(inside)
+            k = rng.randint(3, 6)
+            for f in range(k):
+                a = rng.randint(1, max(1, len(inside) // 2)) if inside else 0
+                take = [inside.pop() for _ in range(min(a, len(inside)))]
+                outside_pool = [i for i in range(L) if ref[i] == 0 and pred[i] == 0]
+                b = rng.choice([0, 0, 1, 2, 3, 5])
+                take += rng.sample(outside_pool, min(b, len(outside_pool)))
+                if not take:
+                    continue
+                for i in take:
+                    if pred[i] == 0:
+                        pred[i] = nxt
+                nxt += 1
+        if not pred.any() or not ref.any():
+            continue
+        kind, mm, thr = rng.choice(MERGE_CFGS)
+        if rng.random() < 0.5 and mm != "ASSD":
+            thr = _score_threshold(rng, pred, ref, mm) or thr
+        recs.append(rec_match(pred, ref, "merge", mm, tuple(thr), meta={"gen": "fragments"}))
+    return recs
+
+
 def check_C14(tier: str, v: Verdict):
     drive.use_serial_pool()
     rng = random.Random(seed() * 7919 + 14)
@@ -278,6 +326,7 @@ def check_C14(tier: str, v: Verdict):
     recs = gen_match_records(rng, tier, MERGE_CFGS, 1500 if tier == "quick" else 15000,
                              [((4,), 2)] if tier == "quick" else [((4,), 2), ((2, 2), 2), ((5,), 2)],
                              with_chain=False, splitty=True, max_vox=36)
+    recs += gen_fragment_records(rng, 600 if tier == "quick" else 8000)
     _count_cov(v, recs, lambda r: (tuple(r["shape"]), tuple(r["pr"]), tuple(r["rf"]), r["mm"], tuple(r["thr"])),
                lambda r: _nontrivial_pair(r["pr"], r["rf"]))
     v.cov["rule"] = ("unmatched pairs with references covered by several prediction fragments x {IoU, Dice, ASSD} x thresholds; "
